@@ -60,6 +60,9 @@ def run(rep, tier):
     doneflag(rep, dbg)
     dispatch_paths(rep, vm)
     shared(rep, dbg)
+    cli = f.crate("pest_debugger", kind="Executable")
+    if cli is not None and cli is not dbg:
+        recvorder(rep, cli)
 
 
 def lock(rep, dbg):
@@ -355,3 +358,39 @@ def shared(rep, dbg):
                                 "%s replaces the shared handle `%s`: a running parser thread holds a clone of the old "
                                 "one, so it keeps stopping at (or ignoring) breakpoints the controller no longer sees"
                                 % (fn["name"], t_[1]))
+
+
+# ------------------------------------------------------------------ RECVORDER (the bundled CLI)
+
+def recvorder(rep, cli):
+    r = rep.rule("C17.RECVORDER", 1,
+                 "the bundled CLI keeps the previous session's receiver alive until DebuggerContext::run has returned: "
+                 "run() joins the previous parser thread, whose last act is a send that panics on a closed channel, so "
+                 "overwriting (dropping) the stored receiver before the call turns a re-run at a breakpoint into "
+                 "PreviousRunPanic and no new session starts")
+    n = 0
+    for fn in cli.bodies:
+        if fn.get("body") is None or fn.get("exp"):
+            continue
+        calls_run = [x for x in walk(fn["body"]) if kind(x) in ("Call", "MethodCall")
+                     and str(callee(x)).endswith("DebuggerContext::run")]
+        if not calls_run:
+            continue
+        n += 1
+        key = fn["path"].replace("pest_debugger::", "")
+        r.instance(key, where(fn["body"]))
+        pe = PathEnum(fn)
+        for (ev, out) in pe.paths():
+            ri = hirq.index_of(ev, lambda e: e.kind == "call" and str(callee(e.node)).endswith("DebuggerContext::run"))
+            if ri < 0:
+                continue
+            early = [e for e in ev[:ri] if e.kind == "assign" and hirq.field_write_target(e.node)
+                     and "receiver" in str(hirq.field_write_target(e.node)[1]).lower()]
+            if early:
+                r.violation(key, where(early[0].node),
+                            "%s stores the new receiver (dropping the previous one) before calling "
+                            "DebuggerContext::run: `r`, `c`, `r` while stopped at a breakpoint fails with "
+                            "PreviousRunPanic" % fn["name"])
+                break
+    if n == 0:
+        r.lost("the CLI function that calls DebuggerContext::run")
